@@ -72,9 +72,27 @@ fn encode(text: &str, which: usize) -> Option<Vec<u8>> {
 const ENC_NAMES: [&str; 5] = ["utf-8", "utf-8+bom", "utf-16le+bom", "utf-16be+bom", "windows-1252"];
 
 fn decorate(text: &str, t: &mut Tape) -> String {
-    // non-ASCII characters in comments and string literals
+    // non-ASCII characters in comments and string literals.  In a quarter of the texts every one
+    // of them stands inside a word (a letter follows it): byte pairs "high byte + letter" are what
+    // double-byte encodings are made of, and such a file holds no byte that rules them out
     let mut out = String::new();
+    let in_words = t.ratio(1, 4);
     for line in text.lines() {
+        if in_words {
+            if t.ratio(1, 3) {
+                let c1 = *t.pick(REPERTOIRE_1252);
+                let c2 = *t.pick(REPERTOIRE_1252);
+                out.push_str(&format!("(* Gr{}sse f{}r Z{}hler *) ", c1, c2, c1));
+            }
+            let mut l = line.to_string();
+            if l.contains("'text'") && t.flag() {
+                let c = *t.pick(REPERTOIRE_1252);
+                l = l.replace("'text'", &format!("'t{}xt'", c));
+            }
+            out.push_str(&l);
+            out.push('\n');
+            continue;
+        }
         if t.ratio(1, 4) {
             let c1 = *t.pick(REPERTOIRE_1252);
             let c2 = *t.pick(REPERTOIRE_1252);
